@@ -29,6 +29,14 @@ CHECKS = {
         note="n<=3 (4 thorough) literal occurrences, coefficient-decomposition coefficients bounded to [-7,7]; PySAT replaced by "
              "a contract stub returning an arbitrary model; history bounded to 1-2 earlier encodings sharing the diagram store.",
         design="5/C07"),
+    'C06': dict(
+        text="Bounded symbolic model checking of the real create_stog/find_location on lists of n rectangles in every order: one "
+             "axis universal (reals with a separation margin), the other from an exhaustive family of band layouts; on every path z3 "
+             "proves result <=> exists-trunk against an independent abutment predicate (positions, not values), trunk first, "
+             "every branch labelled with a side it really abuts, no roles otherwise, and that the list is a permutation of unaltered objects.",
+        note="n<=3 quick / n<=4 thorough; margin 1e-3 against tolerances 1e-10/1e-5 so sub-tolerance geometry is outside; "
+             "one axis symbolic at a time (both orientations).",
+        design="5/C06"),
 }
 
 PENDING_REASON = "check not built yet in this round (planned in DESIGN.md section 5); nothing is claimed"
